@@ -12,7 +12,7 @@ from .report import Report
 def _side_matches(av: AV, roots: list[str], tags: list[str], not_tags: list[str] = (), num: Optional[dict] = None) -> bool:
     if not (all(av.has_root(r) for r in roots) and all(t in av.tags for t in tags)):
         return False
-    if any(t in av.tags for t in not_tags):
+    if any(t in av.tags or (t.endswith(":") and any(x.startswith(t) for x in av.tags)) for t in not_tags):
         return False
     if num is not None:
         vals = [float(r[4:]) for r in av.roots if r.startswith("num:")]
@@ -221,7 +221,10 @@ def _sym_tag(t, tag: str) -> bool:
 
     if tag == "Mult":
         return any(x[0] == "mul" for x in sym.subterms(t))
-    names = _TAG_CALLS.get(tag, {tag})
+    if tag.startswith("round"):
+        names = {"round", "round_", "around", "rint"}
+    else:
+        names = _TAG_CALLS.get(tag, {tag})
     for x in sym.subterms(t):
         if x[0] == "call":
             fn = x[1]
